@@ -41,6 +41,24 @@ func New(year int, month Month, day int) Date {
 	return FromTime(time.Date(year, month, day, 0, 0, 0, 0, time.UTC))
 }
 
+// validDay returns true if year, month and day name an existing day of the (proleptic) Gregorian calendar.
+func validDay(year int, month Month, day int) bool {
+	if month < January || month > December || day < 1 {
+		return false
+	}
+	switch month {
+	case February:
+		if year%4 == 0 && (year%100 != 0 || year%400 == 0) {
+			return day <= 29
+		}
+		return day <= 28
+	case April, June, September, November:
+		return day <= 30
+	default:
+		return day <= 31
+	}
+}
+
 // FromTime creates date from time.Time value.
 func FromTime(t time.Time) Date {
 	d := Date{}
